@@ -94,7 +94,7 @@ def replay_scope(unit, obl):
 
 
 def replay(unit, obl):
-    if unit.startswith("update["):
+    if unit.startswith("update[") or unit.startswith("solve["):
         return replay_trigger(unit, obl)
     from checks import ops_native
     return ops_native.replay_any(unit, obl)
